@@ -365,6 +365,11 @@ func (w *World) vacuityChecks(reports []*funcReport, o checkOpts) vacResult {
 		if o.tier != "thorough" && len(reps) > 2 {
 			reps = reps[:2]
 		}
+		// a function's context is vacuous only if NONE of its probed points is satisfiable
+		// (a single infeasible return is dead code, not a contradiction)
+		total := len(reps)
+		unsatCount := new(int)
+		fname := r.Key
 		for _, ob := range reps {
 			wg.Add(1)
 			go func(ob *Obligation) {
@@ -380,7 +385,10 @@ func (w *World) vacuityChecks(reports []*funcReport, o checkOpts) vacResult {
 				mu.Lock()
 				res.n++
 				if sr.Status == "unsat" {
-					res.bad = append(res.bad, ob.Name)
+					*unsatCount++
+					if *unsatCount == total {
+						res.bad = append(res.bad, shortKey(fname)+" (every probed program point is unreachable under the assumed contracts)")
+					}
 				}
 				mu.Unlock()
 			}(ob)
